@@ -195,9 +195,14 @@ def check(case):
     est, fit_Y, fit_W = _make(kp, center, reg, mixing, k, X, Y)
     if (k + int(round(mixing * 10))) % 2 == 0 and reg in ("none", "krr"):
         # a USED estimator: fitted before on other data of the same shape
-        exc0 = _fit(est, X[::-1, ::-1] * 0.75 + 0.25, np.asarray(fit_Y)[::-1] * -0.5, None)
+        Xo, Yo = X[::-1, ::-1] * 0.75 + 0.25, np.asarray(fit_Y)[::-1] * -0.5
+        exc0 = _fit(est, Xo, Yo, None)
         if exc0 is not None:
             return R().fail("crash:%s" % type(exc0).__name__, "first fit of the used estimator: %r" % exc0)
+        try:  # use it (transform / predict / score fill whatever the estimator caches)
+            est.transform(Xo), est.predict(Xo), est.score(Xo, Yo)
+        except Exception as e0:
+            return R().fail("crash:%s" % type(e0).__name__, "using the estimator before the refit: %r" % e0)
     exc = _fit(est, X, fit_Y, fit_W)
     if exc is not None:
         return r.fail("crash:%s" % type(exc).__name__, "fit: %r" % exc)
